@@ -3,3 +3,5 @@ import GeoModel.Kernel
 import GeoModel.Index
 import GeoModel.Series
 import GeoModel.Geom
+import GeoModel.Spec
+import GeoModel.Driver
